@@ -1040,3 +1040,76 @@ func globalArrayStrings(c *km.Ctx, g *ssa.Global) ([]string, bool) {
 	}
 	return out, good
 }
+
+// errorAborts: the error result (#errIdx) of call is fatal to its function: from the edge on which it is known to
+// be non-nil, every return that can be reached reports a non-nil error (no continuing with the next item, no
+// falling through to a normal return). Returns a description of the first escape found ("" when there is none)
+// and whether a test of that error was found at all.
+func errorAborts(c *km.Ctx, call *ssa.Call, errIdx int) (escape string, tested bool) {
+	fn := call.Parent()
+	res := fn.Signature.Results()
+	if res.Len() == 0 || !isErrorType(res.At(res.Len()-1).Type()) {
+		return "the function reports no error", false
+	}
+	var errVal ssa.Value
+	if call.Common().Signature().Results().Len() == 1 {
+		errVal = call
+	} else {
+		for _, ref := range *call.Referrers() {
+			if ex, ok := ref.(*ssa.Extract); ok && ex.Index == errIdx {
+				errVal = ex
+			}
+		}
+	}
+	if errVal == nil {
+		return "the error result is dropped", false
+	}
+	for _, ref := range *errVal.Referrers() {
+		b, ok := ref.(*ssa.BinOp)
+		if !ok || (b.Op != token.NEQ && b.Op != token.EQL) || !(km.IsNilConst(b.Y) || km.IsNilConst(b.X)) {
+			continue
+		}
+		for _, r2 := range *b.Referrers() {
+			iff, ok := r2.(*ssa.If)
+			if !ok {
+				continue
+			}
+			tested = true
+			failing := iff.Block().Succs[0]
+			if b.Op == token.EQL {
+				failing = iff.Block().Succs[1]
+			}
+			for blk := range km.ReachableBlocks(failing, nil) {
+				ret, ok := blk.Instrs[len(blk.Instrs)-1].(*ssa.Return)
+				if !ok {
+					continue
+				}
+				rv := km.ReturnValues(ret)
+				if len(rv) == 0 || km.IsNilConst(rv[len(rv)-1]) {
+					return "a return without an error at " + posOf(c, ret) + " is reachable after the failure", true
+				}
+			}
+		}
+	}
+	if !tested {
+		return "the error is never tested", false
+	}
+	return "", true
+}
+
+// checkErrorAborts adds one obligation per call of callee in fn.
+func checkErrorAborts(c *km.Ctx, rule string, fn *ssa.Function, callee string, errIdx int, what string) int {
+	n := 0
+	for _, f := range callsWithNewHelpersFuncs(c, fn, 1) {
+		for _, ci := range km.CallsIn(f) {
+			cl, ok := ci.(*ssa.Call)
+			if !ok || km.CalleeFull(cl.Common()) != callee {
+				continue
+			}
+			n++
+			esc, _ := errorAborts(c, cl, errIdx)
+			c.R.Add(rule, km.FuncName(f), what, posOf(c, cl), "a failure aborts: every return reachable after it reports an error", esc, esc == "")
+		}
+	}
+	return n
+}
